@@ -355,6 +355,15 @@ class AliasDepth:
                             if bt and bt[0] == "cls" and bt[1] not in P5:
                                 continue    # attribute of a compiler-owned object
                             targets.append((t.value, "attribute store"))
+                if isinstance(n, ast.AugAssign) and isinstance(n.target, (ast.Name, ast.Attribute)):
+                    # x += [...] / x |= {...} on a list, set or dict extends the object in place:
+                    # every other holder of that object sees the change
+                    tt = self.db.type_of(n.target, f)
+                    vt = self.db.type_of(n.value, f)
+                    if any(t_ and t_[0] in ("list", "set", "dict") for t_ in (tt, vt)) or \
+                            isinstance(n.value, (ast.List, ast.Set, ast.Dict, ast.ListComp, ast.SetComp,
+                                                 ast.DictComp)):
+                        targets.append((n.target, "augmented assignment (in place)"))
                 elif isinstance(n, ast.Call) and isinstance(n.func, ast.Attribute) and \
                         n.func.attr in paths.MUTATORS:
                     bt = self.db.type_of(n.func.value, f)
